@@ -5,6 +5,8 @@ strided slice, ndindex, concatenate and stack, so index semantics are NumPy's ow
 *logical* dtype and intercepts the few value-level operations NumPy cannot do on z3 terms."""
 from fractions import Fraction
 
+import time
+
 import numpy as np
 import z3
 
@@ -178,21 +180,47 @@ class Sym(np.ndarray):
         if func is np.pad:
             a = args[0]
             mode = args[2] if len(args) > 2 else kwargs.get('mode', 'constant')
-            if mode == 'linear_ramp':
-                # NumPy: each side is linspace(end_value, edge, width, endpoint=False), reversed on the right
+            if mode in ('linear_ramp', 'mean'):
+                # value-computing modes: NumPy computes the fill values in the dtype of the array it is given; for an
+                # integer array they are rounded, which is kept visible as an uninterpreted PADROUND_<dtype>
                 raw = a.raw() if isinstance(a, Sym) else np.asarray(a, dtype=object)
                 pw = args[1]
                 if raw.ndim != 1 or not (isinstance(pw, tuple) and len(pw) == 2 and all(isinstance(x, (int, np.integer)) for x in pw)):
-                    raise NotImplementedError('linear_ramp padding of this shape')
+                    raise NotImplementedError('%s padding of this shape' % mode)
+                ald = a._ld if isinstance(a, Sym) else np.dtype('f8')
+                if ald.kind in 'iu':
+                    _rf = z3.Function('PADROUND_%s' % ald.name, z3.RealSort(), z3.RealSort())
+                    rnd_ = lambda t: _rf(t)
+                else:
+                    rnd_ = lambda t: t
+            if mode == 'mean':
+                if kwargs.get('stat_length') is not None:
+                    raise NotImplementedError('mean padding with stat_length')
+                n = raw.shape[0]
+                if n == 0:
+                    raise ValueError("can't extend empty axis 0 using modes other than 'constant' or 'empty'")
+                mu = z3.RealVal(0)
+                for t_ in raw:
+                    mu = mu + rq(t_)
+                mu = rnd_(mu / z3.RealVal(n))
+                out = np.empty(n + pw[0] + pw[1], dtype=object)
+                out[:pw[0]] = mu
+                out[pw[0]:pw[0] + n] = raw
+                out[pw[0] + n:] = mu
+                r = out.view(Sym)
+                r._ld = ald
+                return r
+            if mode == 'linear_ramp':
+                # NumPy: each side is linspace(end_value, edge, width, endpoint=False), reversed on the right
                 ev = kwargs.get('end_values', 0)
                 el, er = (ev, ev) if not isinstance(ev, (tuple, list)) else ev
                 n = raw.shape[0]
                 out = np.empty(n + pw[0] + pw[1], dtype=object)
                 for k in range(pw[0]):
-                    out[k] = rq(el) + (rq(raw[0]) - rq(el)) * z3.Q(k, pw[0])
+                    out[k] = rnd_(rq(el) + (rq(raw[0]) - rq(el)) * z3.Q(k, pw[0]))
                 out[pw[0]:pw[0] + n] = raw
                 for j in range(pw[1]):
-                    out[pw[0] + n + j] = rq(er) + (rq(raw[n - 1]) - rq(er)) * z3.Q(pw[1] - 1 - j, pw[1])
+                    out[pw[0] + n + j] = rnd_(rq(er) + (rq(raw[n - 1]) - rq(er)) * z3.Q(pw[1] - 1 - j, pw[1]))
                 r = out.view(Sym)
                 r._ld = a._ld if isinstance(a, Sym) else np.dtype('f8')
                 return r
@@ -273,6 +301,9 @@ class NPProxy:
         return r
 
 
+STATS = {'queries': 0, 'solver_s': 0.0}
+
+
 def differs(a, b, xs=None, tol=None):
     """z3: can a and b (object arrays of terms, same shape) differ?  With tol: exists x in [-1,1]^n |a-b| > tol."""
     ar = a.raw() if isinstance(a, Sym) else a
@@ -291,4 +322,8 @@ def differs(a, b, xs=None, tol=None):
         s.add(z3.Or([z3.Or(p - q > t, q - p > t) for p, q in pairs]))
     else:
         s.add(z3.Or([p != q for p, q in pairs]))
-    return str(s.check())
+    t0 = time.time()
+    r = str(s.check())
+    STATS['queries'] += 1
+    STATS['solver_s'] += time.time() - t0
+    return r
